@@ -156,6 +156,8 @@ class LaneBasedExecutionQueue : public ExecutionQueue {
   /// Background (lane released) task management
   unsigned backgroundTaskMax = 0;
   std::atomic<unsigned> backgroundTaskCount{0};
+  std::mutex backgroundTaskMutex;
+  std::condition_variable backgroundTaskCondition;
 
 
   /// The base environment.
@@ -290,6 +292,16 @@ public:
           queueCompleteCondition.notify_all();
         }
         killAfterTimeoutThread->join();
+      }
+    }
+
+    // Wait for the background (lane released) tasks. Their detached threads
+    // use this queue (the process group, the task count) until they are done,
+    // and they deliver the process completion to the client.
+    {
+      std::unique_lock<std::mutex> lock(backgroundTaskMutex);
+      while (backgroundTaskCount != 0) {
+        backgroundTaskCondition.wait(lock);
       }
     }
   }
@@ -437,7 +449,13 @@ public:
         // Launch the process wait on a detached thread
         std::thread([this, processWait=std::move(processWait)]() mutable {
           processWait();
+          processWait = nullptr;
+
+          // The queue destructor waits for the count to reach zero; nothing
+          // may touch the queue once the lock has been released.
+          std::lock_guard<std::mutex> guard(backgroundTaskMutex);
           backgroundTaskCount--;
+          backgroundTaskCondition.notify_all();
         }).detach();
       } else {
         backgroundTaskCount--;
